@@ -1,17 +1,18 @@
 //! C16.clause — contract of the tree validator `validate_clause` (and of the
-//! entry points `validate_plan` / `validate_command` as far as CBMC reaches)
-//! in rs/anda_kip/src/parser/kml.rs.
+//! plan entry point `validate_plan` as far as CBMC reaches) in
+//! rs/anda_kip/src/parser/kml.rs.
 //!
 //! Child module of `parser::kml` (cfg(kani), scratch copy only).
 //!
 //! Property C16: no command accepted by the tree validator "assigns an
 //! engine-owned field (system, governance, space identity and sequence)".
 //! Stated on the tree, independently of the validator: an *observer*
-//! (`clause_names_protected`) walks every assignment / unset block of a clause
-//! and says whether any key is engine-owned (names spelled here, compared byte
-//! by byte). The obligation of every cell is
+//! (`clause_sets_protected` / `clause_unsets_protected`) walks every assignment /
+//! unset block of a clause and says whether any key is engine-owned (names
+//! spelled here, compared byte by byte). The obligations of every cell are
 //!
-//!     validate_clause(c) is Ok  ==>  !clause_names_protected(c)
+//!     validate_clause(c) is Ok  ==>  !clause_sets_protected(c)
+//!     validate_clause(c) is Ok  ==>  !clause_unsets_protected(c)
 //!
 //! One harness per (clause family x block) cell. The SHAPE of each cell is
 //! concrete (rule 1); the KEY is payload: 10 symbolic ASCII bytes with symbolic
